@@ -3240,6 +3240,81 @@ def gen_gene_attributes():
            "def EXONS_KEY : String := " + _lean_str(ek[0]),
            "\nend IsoVerif.Gen\n"]
     return "\n".join(out), info
+def gen_annotation_types():
+    """Gen/AnnotationTypes.lean (C12 / C03, audit2-C GAP-1): the three places that decide which record types of an annotation
+    are TRANSCRIPT records must agree -
+      * gtf2db.check_gtf_duplicates / check_gff3_duplicates: `feature_type in [<types>]` (records whose id is checked and
+        counted as transcript records);
+      * GeneInfo: `featuretype=(<types>)` of every `db.children(gene, ...)` call (the records read as isoforms);
+      * gtf2db.gtf2db: the `id_spec` handed to gffutils.create_db (record type -> attribute that becomes the primary key);
+        without one gffutils keys `gene` by gene_id and `transcript` by transcript_id only (every other type gets
+        `<type>_<n>`, and the exons of such a record are children of no transcript)."""
+    g2 = parse("src/gtf2db.py")
+
+    def type_lists(fn):
+        res = []
+        for n in ast.walk(fn):
+            if isinstance(n, ast.Compare) and len(n.ops) == 1 and isinstance(n.ops[0], ast.In) \
+                    and isinstance(n.left, ast.Name) and n.left.id == "feature_type" \
+                    and isinstance(n.comparators[0], (ast.List, ast.Tuple)):
+                elts = n.comparators[0].elts
+                if not all(isinstance(e, ast.Constant) and isinstance(e.value, str) for e in elts):
+                    raise TranslationError("%s: `feature_type in [...]` with a non-literal element" % fn.name)
+                vals = [e.value for e in elts]
+                if "gene" not in vals:
+                    res.append(vals)
+        return res
+
+    chk = type_lists(find_def(g2, "check_gtf_duplicates"))
+    if len(chk) != 1:
+        raise TranslationError("check_gtf_duplicates: expected one `feature_type in [<transcript types>]` test, found %d" % len(chk))
+    chk3 = type_lists(find_def(g2, "check_gff3_duplicates"))
+    if not chk3 or any(sorted(x) != sorted(chk3[0]) for x in chk3):
+        raise TranslationError("check_gff3_duplicates: transcript type lists differ or are missing: %s" % chk3)
+    # GeneInfo: featuretype=(...) keyword of children(...) calls that name more than one type or 'transcript'
+    gi = parse("src/gene_info.py")
+    tuples = []
+    for n in ast.walk(gi):
+        if isinstance(n, ast.Call) and isinstance(n.func, ast.Attribute) and n.func.attr == "children":
+            for kw in n.keywords:
+                if kw.arg == "featuretype" and isinstance(kw.value, (ast.Tuple, ast.List)):
+                    vals = [e.value for e in kw.value.elts if isinstance(e, ast.Constant) and isinstance(e.value, str)]
+                    if len(vals) != len(kw.value.elts):
+                        raise TranslationError("gene_info.py: children(featuretype=...) with a non-literal element")
+                    if "transcript" in vals or "mRNA" in vals:
+                        tuples.append(vals)
+    if not tuples or any(sorted(t) != sorted(tuples[0]) for t in tuples):
+        raise TranslationError("gene_info.py: the transcript featuretype tuples of children() differ or are missing: %s" % tuples)
+    # id_spec of gtf2db: a dict display assigned to `id_spec` (absent on a tree that uses the gffutils default)
+    fn = find_def(g2, "gtf2db")
+    spec = []
+    has_kw = False
+    for n in ast.walk(fn):
+        if isinstance(n, ast.Assign) and len(n.targets) == 1 and isinstance(n.targets[0], ast.Name) and n.targets[0].id == "id_spec" \
+                and isinstance(n.value, ast.Dict):
+            for k, v in zip(n.value.keys, n.value.values):
+                if not (isinstance(k, ast.Constant) and isinstance(k.value, str) and isinstance(v, ast.Constant) and isinstance(v.value, str)):
+                    raise TranslationError("gtf2db: id_spec entry is not `'<type>': '<attribute>'`")
+                spec.append((k.value, v.value))
+        if isinstance(n, ast.Call) and isinstance(n.func, ast.Attribute) and n.func.attr == "create_db":
+            has_kw = any(kw.arg == "id_spec" for kw in n.keywords)
+    if spec and not has_kw:
+        raise TranslationError("gtf2db: an id_spec dict is built but not handed to gffutils.create_db")
+    info = {"check_gtf": chk[0], "check_gff3": chk3[0], "geneinfo": tuples[0], "geneinfo_sites": len(tuples), "id_spec": spec}
+    ll = lambda xs: "[" + ", ".join(_lean_str(x) for x in xs) + "]"
+    out = ["-- GENERATED by harness/translate.py -- do not edit", "namespace IsoVerif.Gen", "",
+           "/-- gtf2db.check_gtf_duplicates: `feature_type in [...]` - the record types whose transcript id is checked and counted -/",
+           "def CHECK_TRANSCRIPT_TYPES : List String := " + ll(chk[0]),
+           "/-- gtf2db.check_gff3_duplicates: the same list of the GFF3 branch -/",
+           "def CHECK_GFF3_TRANSCRIPT_TYPES : List String := " + ll(chk3[0]),
+           "/-- gene_info.py: `featuretype=(...)` of every `db.children(gene, ...)` call that reads isoforms (%d call sites, all equal) -/" % len(tuples),
+           "def GENEINFO_TRANSCRIPT_TYPES : List String := " + ll(tuples[0]),
+           "/-- gtf2db.gtf2db: the `id_spec` dict given to gffutils.create_db for a GTF file ([] = none given: gffutils default) -/",
+           "def DB_ID_SPEC : List (String × String) := [" + ", ".join("(%s, %s)" % (_lean_str(a), _lean_str(b)) for a, b in spec) + "]",
+           "\nend IsoVerif.Gen\n"]
+    return "\n".join(out), info
+
+
 def gen_sample_names():
     """C10 (experiment names): the test that makes the description parsers give up renaming a duplicate experiment
     name.  Both `InputDataStorage.get_samples_from_yaml` and `get_samples_from_file` must contain exactly one
@@ -4237,6 +4312,7 @@ GENERATORS = [("Prims", gen_prims), ("Enums", gen_enums), ("EventClasses", gen_e
               ("GtfFormat", gen_gtf_format),          # C03 (text of the GTF lines)
               ("PrinterTables", gen_printer_tables),           # C15 / C05 / C08 (read-level printers)
               ("GeneAttributes", gen_gene_attributes),         # C18 (attribute list of a printed transcript line)
+              ("AnnotationTypes", gen_annotation_types),       # C12 (which record types are transcript records; id_spec)
               ]
 
 
